@@ -4,6 +4,7 @@
 *******************************************************************************/
 #pragma once
 #include <charconv>
+#include <cmath>
 #include <limits>
 #include <stdexcept>
 #include "bitserializer/config.h"
@@ -46,6 +47,17 @@ namespace BitSerializer::Convert::Detail
 			{
 				auto value = static_cast<TTarget>(sourceValue);
 				if (result = static_cast<TSource>(value) == sourceValue; result) {
+					targetValue = value;
+				}
+			}
+			else if constexpr (std::is_floating_point_v<TTarget>)
+			{
+				// Integer to floating point: converting back is defined only when the (rounded) value is in range of the integer type
+				const auto value = static_cast<TTarget>(sourceValue);
+				const TTarget upperBound = std::ldexp(static_cast<TTarget>(1), std::numeric_limits<TSource>::digits);
+				result = value < upperBound && value >= (std::is_signed_v<TSource> ? -upperBound : static_cast<TTarget>(0))
+					&& static_cast<TSource>(value) == sourceValue;
+				if (result) {
 					targetValue = value;
 				}
 			}
